@@ -55,6 +55,9 @@ func fullKey(key string) string {
 		}
 		return fullKey(key[:i]) + "@" + ft
 	}
+	if strings.HasPrefix(strings.TrimLeft(key, "(*"), "github.com/") {
+		return key // already a full import path (a verified dependency)
+	}
 	switch {
 	case strings.HasPrefix(key, "(*"):
 		return "(*" + repoPrefix + "/" + key[2:]
